@@ -487,6 +487,12 @@ func RunReplay(entries map[string]func()) {
 		fmt.Println("VERIF-OUTCOME: no-such-entry " + rp.Entry)
 		return
 	}
+	// order-dependence findings need several native runs (fresh maps each time) before
+	// two different iteration orders are observed
+	repeat := 1
+	if n, err := strconv.Atoi(os.Getenv("VERIF_REPEAT")); err == nil && n > 1 {
+		repeat = n
+	}
 	defer func() {
 		if r := recover(); r != nil {
 			finish()
@@ -497,8 +503,12 @@ func RunReplay(entries map[string]func()) {
 			return
 		}
 	}()
-	f()
-	CheckFrozen()
+	for i := 0; i < repeat && len(failed) == 0; i++ {
+		rpPos = 0
+		frozen = nil
+		f()
+		CheckFrozen()
+	}
 	finish()
 	if len(failed) > 0 {
 		fmt.Println("VERIF-OUTCOME: assert-failed")
